@@ -576,23 +576,33 @@ func valueUses(v ssa.Value) []ssa.Instruction {
 // ... if err := step(x); err != nil`), is represented by that site — provided a failure
 // of the inner call makes the literal fail (every return that may report success is only
 // reached when the inner call succeeded). Otherwise the call is returned unchanged.
-func liftThroughLocalClosure(call ssa.CallInstruction) ssa.CallInstruction {
+func liftThroughLocalClosure(call ssa.CallInstruction, stop func(*ssa.Function) bool) ssa.CallInstruction {
 	for depth := 0; depth < 3; depth++ {
 		fn := call.Parent()
+		if stop != nil && stop(fn) {
+			return call
+		}
+		var outer ssa.CallInstruction
 		if fn.Parent() == nil {
-			return call
-		}
-		sites := ir.ClosureSites(fn)
-		if len(sites) != 1 {
-			return call
-		}
-		calls, only := localClosureCalls(sites[0])
-		if !only || len(calls) != 1 {
-			return call
-		}
-		outer, ok := calls[0].(ssa.CallInstruction)
-		if !ok {
-			return call
+			// an extracted named step with a single call site works the same way
+			outer = ir.SingleCallSite(fn)
+			if outer == nil {
+				return call
+			}
+		} else {
+			sites := ir.ClosureSites(fn)
+			if len(sites) != 1 {
+				return call
+			}
+			calls, only := localClosureCalls(sites[0])
+			if !only || len(calls) != 1 {
+				return call
+			}
+			oc, ok := calls[0].(ssa.CallInstruction)
+			if !ok {
+				return call
+			}
+			outer = oc
 		}
 		if ev := ir.ErrResult(call); ev != nil {
 			propagates := ir.HasErrResult(outer)
